@@ -42,6 +42,25 @@ def fs_write_calls(fn):
     return out
 
 
+def truncates(fn, call):
+    """does this file-opening call replace the previous content of the file?  (True/False, why)"""
+    ps = H.callee_paths(call)
+    if any(p.endswith(('File::create', 'fs::write', 'File::create_new')) for p in ps):
+        return True, 'File::create / fs::write truncate'
+    if any(p.endswith('OpenOptions::open') for p in ps) and call['k'] == 'mcall':
+        flags = {}
+        for n in H.walk_through_locals(fn, call['recv']):
+            if n['k'] == 'mcall' and n['method'] in ('truncate', 'append', 'create', 'create_new', 'write'):
+                v = [a['lit']['v'] for a in n['args'] if a.get('k') == 'lit']
+                flags[n['method']] = v[0] if v else '?'
+        if flags.get('append') is True or flags.get('append') == '?':
+            return False, 'opened for appending'
+        if flags.get('truncate') is True or flags.get('create_new') is True:
+            return True, 'OpenOptions with truncate(true)'
+        return False, 'OpenOptions%s without truncate(true)' % sorted(flags.items())
+    return True, 'library write'
+
+
 # ================================================================================================
 # C19
 # ================================================================================================
@@ -193,6 +212,12 @@ def rule_cli_generate(ctx):
                     obs.append(ok('OUT-CONTENT', 'generate/rustfmt', 'rustfmt applied only when --no-formatting is absent', n.get('sp', '')))
                 else:
                     obs.append(bad('OUT-CONTENT', 'generate/rustfmt', 'rustfmt is applied regardless of --no-formatting', n.get('sp', ''), 'flag has no effect'))
+        tr, why = truncates(fn, creates[0])
+        if tr:
+            obs.append(ok('OUT-CONTENT', 'generate/truncate', 'an existing destination file is replaced (%s)' % why, creates[0].get('sp', '')))
+        else:
+            obs.append(bad('OUT-CONTENT', 'generate/truncate', 'the destination file is %s' % why, creates[0].get('sp', ''),
+                           'regenerating a shorter module leaves the tail of the old file: the file is not what the library produces'))
         # OUT-PATH
         dest = ctx.pv.eval(fn, creates[0]['args'][0], {}, 0)
         consts = TM.consts_in(dest)
@@ -309,7 +334,28 @@ def rule_introspect(ctx):
             obs.append(bad('REQ-BUILD', 'introspect/custom-headers', '.header(%s, %s) (in loop: %s)' % (sorted(f0), sorted(f1), loop), h.get('sp', ''),
                            'header name/value swapped or only one header sent'))
     else:
-        obs.append(bad('REQ-BUILD', 'introspect/custom-headers', 'custom headers are never added', fn.loc, '--header has no effect'))
+        # the custom headers may be collected into a HeaderMap first (possibly in a helper)
+        hm = []
+        for f_, n_ in H.deep_nodes(ctx, fn, fn.body, 2):
+            if n_['k'] == 'mcall' and n_['method'] in ('insert', 'append') and 'HeaderMap' in (n_['recv'].get('ty', '') + n_['recv'].get('aty', '')) and len(n_['args']) == 2:
+                fe = H.sym_env(f_)
+                fa = {x for x in TM.fields_in(ctx.pv.eval(f_, n_['args'][0], fe, 0)) if x.startswith('Header.')}
+                fb = {x for x in TM.fields_in(ctx.pv.eval(f_, n_['args'][1], fe, 0)) if x.startswith('Header.')}
+                if fa or fb:
+                    hm.append((f_, n_, fa, fb))
+        if not hm:
+            obs.append(bad('REQ-BUILD', 'introspect/custom-headers', 'custom headers are never added', fn.loc, '--header has no effect'))
+        else:
+            f_, n_, fa, fb = hm[0]
+            in_loop = any(c_[0] == 'for' for c_ in H.conditional_context(f_, n_))
+            if n_['method'] == 'insert':
+                obs.append(bad('REQ-BUILD', 'introspect/custom-headers', 'custom headers are collected with HeaderMap::insert, which replaces an earlier value of the same name', n_.get('sp', ''),
+                               'a repeated --header name (or a custom Accept/Content-Type) is not carried'))
+            elif fa == {'Header.name'} and fb == {'Header.value'} and in_loop:
+                obs.append(ok('REQ-BUILD', 'introspect/custom-headers', 'every --header is appended as (name, value)', n_.get('sp', '')))
+            else:
+                obs.append(bad('REQ-BUILD', 'introspect/custom-headers', 'HeaderMap::append(%s, %s) (in loop: %s)' % (sorted(fa), sorted(fb), in_loop), n_.get('sp', ''),
+                               'header name/value swapped or only one header sent'))
     ba = by.get('bearer_auth', [])
     if ba:
         t = ctx.pv.eval(fn, ba[0]['args'][0], env, 0)
@@ -527,6 +573,13 @@ def rule_introspect(ctx):
             else:
                 obs.append(bad('OUT-AFTER-SUCCESS', 'introspect/create', 'the --output file is created/truncated before the request has succeeded', c.get('sp', ''),
                                'a failed run leaves an existing output file empty'))
+        for c in fs_write_calls(fn):
+            tr, why = truncates(fn, c)
+            if tr:
+                obs.append(ok('OUT-AFTER-SUCCESS', 'introspect/truncate', 'the output file is replaced, not overwritten in place (%s)' % why, c.get('sp', '')))
+            else:
+                obs.append(bad('OUT-AFTER-SUCCESS', 'introspect/truncate', 'the --output file is %s' % why, c.get('sp', ''),
+                               'when the file already exists and is longer, the old tail stays: the output is not the server\'s JSON'))
         if not fs_write_calls(fn):
             obs.append(bad('OUT-AFTER-SUCCESS', 'floor', 'anchor-missing: no file creation in introspect_schema'))
     # --- HEADER-GUARDS
